@@ -21,10 +21,7 @@ CLAIMS = {
             "Trusted: TLC, the transcription of the documented format into Frame.tla, serde_json I/O. Bounded: quick samples 2061 addresses.",
             "DESIGN.md section 5 C01", TECH_MGV),
     "C02": ("model_checking",
-            "TLC proves on the model that the wire FORMAT detects each single damage of the five named classes for every frame of a bounded "
-            "domain (all 256 replacement bytes in thorough); the real decoder's verdict on every damaged version of real encodings (every "
-            "position x every byte, deletions, duplications, swaps, prefixes; 255-byte frames in thorough) is recorded and TLC checks each "
-            "verdict equals Decode's and is an error or exactly the original frame.",
+            "TLC proves on the model that the wire FORMAT detects each single damage of the five named classes for every frame of a bounded domain (all 256 replacement bytes in thorough). For sample frames (255-byte ones in thorough) the harness's own reference encoder produces the valid encoding (checked against Frame!Encode), applies every position x every byte substitution, every deletion, duplication, unequal adjacent swap and proper prefix, decodes each with the real decoder, and TLC checks each verdict: an error or exactly the original frame, and nothing that Frame!Decode classifies as length mismatch or bad checksum is accepted. (Agreement of the decoder with Decode on arbitrary strings is C03's business.)",
             "Trusted: TLC, Frame.tla. Damage = one application of one class to a valid encoding. Frames are sampled (all damages of each are exhaustive).",
             "DESIGN.md section 5 C02", TECH_MGV),
     "C03": ("model_checking",
@@ -42,24 +39,15 @@ CLAIMS = {
             "Trusted: TLC, the transcription of the documented table (from the property text and rustdoc) into Message.tla.",
             "DESIGN.md section 5 C04", TECH_MGV),
     "C05": ("model_checking",
-            "TLC checks Message->Frame->wire->Frame->Message identity and pairwise distinct wires over the bounded message set; each is replayed "
-            "into the real code; every kind x addresses/offsets/counts across the 16-bit range x all states x all operations and SendData of every "
-            "length 0..=255 is recorded from the real code and validated by TLC.",
+            "TLC checks Message->Frame->wire->Frame->Message identity and pairwise distinct wires over the bounded message set; each model message is replayed into the real code; every kind x addresses/offsets/counts across the 16-bit range x all states x all operations and SendData of every length 0..=255 goes through the real Message->Frame->bytes->Frame->Message path and TLC checks that the same message comes back (which wire bytes are used is C01/C04's business; distinct messages cannot share a wire encoding if each comes back from its own).",
             "Trusted: TLC, Message.tla, Frame.tla. Injectivity on the real code follows from the per-message round trip.",
             "DESIGN.md section 5 C05", TECH_MGV),
     "C06": ("model_checking",
-            "Page.tla models a page as its byte image with set/get/set-all and the C06 relations. TLC explores every byte image reachable for every "
-            "size of a small exhaustive box and checks the relations for every operation (in-bounds, just outside, far outside, set-all) from every "
-            "image; each model transition is replayed on a page from Page::new and on one over borrowed bytes, comparing result and the projection "
-            "(every pixel through get_pixel, id, dimensions, length, header, padding); random operation sequences on real and random sizes are "
-            "recorded and judged by TLC with the relations stated on observations.",
+            "Page.tla models a page as its byte image with set/get/set-all and the C06 relations. TLC explores every byte image reachable for every size of a small exhaustive box and checks the relations for every operation from every image; each model transition is replayed on a page from Page::new and on one over borrowed bytes; random operation sequences on real, random, tall (2 x 2050) and zero-sized pages are judged by TLC on the full projection (every pixel through get_pixel, id, dimensions, length, header, padding), and huge pages (1 x 16 777 217, 40 000 x 9, ...) on a sparse projection (changed bytes, header/padding preserved, before/after readings of a probe set).",
             "Trusted: TLC. Exhaustive only inside the box (area <= 12); larger sizes are sampled. Unused column bits after set-all are unconstrained.",
             "DESIGN.md section 5 C06", TECH_MGV),
     "C07": ("model_checking",
-            "The layout formulae (bytes per column, data bytes, padded size, pixel index) are TLA+ definitions; TLC checks new-page shape, index "
-            "injectivity/range, bit order and from_bytes acceptance for every size of the box and the 11 real sizes; expected images are replayed into "
-            "the real Page; pages, single-pixel images and from_bytes verdicts recorded from the real code (all ids, every size 0..48 x 0..33 in "
-            "thorough, large sizes) are validated by TLC against the formulae.",
+            "The layout formulae are TLA+ definitions; TLC checks new-page shape, index injectivity/range, bit order and from_bytes acceptance for every size of the box and the 11 real sizes; a TLAPS proof (spec/proofs/PixelIndex.tla, 100 obligations, run in the thorough tier and bound to the model by MC_Layout!SameDefs) establishes injectivity, range and padding for ALL sizes; expected images are replayed into the real Page; pages, single-pixel images and from_bytes verdicts recorded from the real code (all ids, every size 0..48 x 0..33 in thorough, large sizes) are validated by TLC against the formulae.",
             "Trusted: TLC, the transcription of the documented layout.",
             "DESIGN.md section 5 C07", TECH_MGV),
     "C08": ("model_checking",
@@ -92,16 +80,11 @@ CLAIMS = {
             "Trusted: TLC, the log-only definition of 'reply allowed at this point'.",
             "DESIGN.md section 5 C11", TECH_MGV),
     "C15": ("model_checking",
-            "Stream.tla states the read-a-frame / write-a-frame contract under an adversarial I/O schedule; TLC checks it for every schedule of the "
-            "bounded model. Frame::read and Frame::write are run on instrumented Read/Write objects that hand out as many bytes as asked (up to a "
-            "fragment limit), under exhaustively enumerated schedules on short streams (interrupt placements, a hard error at every call, sinks "
-            "accepting k bytes / nothing) and random schedules on long streams; TLC validates every I/O call and result against the contract.",
+            "Stream.tla states the read-a-frame / write-a-frame contract under an adversarial I/O schedule; TLC checks it for every schedule of the bounded model. Frame::read and Frame::write run on instrumented Read/Write objects that hand out as many bytes as asked (up to a fragment limit) under exhaustively enumerated schedules on short streams, random schedules on long streams, interrupt storms (up to 70 000 interrupts within one frame; a million in thorough), a 70 000-byte line, and hard errors of ten I/O error kinds at every call; TLC validates every I/O call: never past the first line feed, the whole line consumed, result = the library's own decoding of exactly those bytes, trailing bytes stay; everything written = the frame's own encoding with CR LF, or a proper prefix with an I/O error.",
             "Trusted: TLC, the instrumented streams. The model's reader asks for one byte per call; the recorded reader may ask for anything.",
             "DESIGN.md section 5 C15", TECH_MGV),
     "C16": ("model_checking",
-            "Serial.tla defines what one process_message call does at the port (PM). TLC checks one-frame-out, read-iff-due, one-line-in and "
-            "never-invented over every message kind x reply tape; SerialSignBus over an instrumented SerialPort is exercised with all kinds, "
-            "parameters across their ranges, 39 reply tapes (two lines each) and a failure at each port operation, and every port call is validated by TLC.",
+            "Serial.tla defines what one process_message call does at the port (PM). TLC checks one-frame-out, read-iff-due, one-line-in and never-invented over every message kind x reply tape; SerialSignBus over an instrumented SerialPort is exercised with all kinds, parameters across their ranges, ~55 reply tapes of two lines each (all states, all acks, unknown, malformed, junk-wrapped valid frames, empty), a failure at each port operation, and sessions of six messages on one bus under all 81 fault patterns; every port call is validated by TLC (bytes written = the message's own frame encoding with CR LF; reply = the library's own decoding of exactly one line).",
             "Trusted: TLC, the instrumented port (an empty receive side times out).",
             "DESIGN.md section 5 C16", TECH_MGV),
     "C17": ("model_checking",
